@@ -77,6 +77,7 @@ struct Config {
   const char* strategy = "random";
   int switch_permille = 300;
   int time_permille = 50; // probability to fire the earliest timer while others are enabled
+  int spurious_permille = 0; // probability (per decision) of a spurious futex return for some blocked thread
   int pct_depth = 3;
   int est_steps = 400;
   long max_steps = 200000;
